@@ -726,7 +726,7 @@ func (u *Unit) checkClause(env *SpecEnv, cl *Clause, kind, label string, pos tok
 	for i, cj := range cjs {
 		t, err := u.trySpec(env, cj)
 		if err != nil {
-			u.unsupported(pos, "%s %s: %v", kind, cl.Text, err)
+			u.unsupported(pos, "%s [%s] %s: %v", kind, cl.Label, cl.Text, err)
 		}
 		l := label
 		if len(cjs) > 1 {
@@ -1234,7 +1234,29 @@ func (u *Unit) checkCallAsserts(st *State, pk, key string, k int, pos token.Pos)
 		return
 	}
 	for _, ca := range u.contract.CallAsserts {
-		if calleeMatches(ca.Callee, pk, key) && ca.K == k {
+		match := false
+		if ca.On != "" {
+			// addressed by the text of the source line (robust against renumbering)
+			if calleeMatches(ca.Callee, pk, key) && strings.Contains(u.rawLine(pos), ca.On) {
+				// K counts distinct call sites on matching lines, in order of first encounter
+				// (a site is visited more than once: loop discovery, then the real pass)
+				rank := 0
+				for i, p := range u.onPos[ca] {
+					if p == pos {
+						rank = i + 1
+					}
+				}
+				if rank == 0 {
+					u.onPos[ca] = append(u.onPos[ca], pos)
+					rank = len(u.onPos[ca])
+				}
+				match = ca.K == 0 || ca.K == rank
+			}
+		} else {
+			match = calleeMatches(ca.Callee, pk, key) && ca.K == k
+		}
+		if match {
+			u.matchedCA[ca] = true
 			aenv := u.funcEnvAt(st, pos)
 			// the actual arguments of the call: arg0 is the receiver of a method call (or the
 			// first argument of a function), arg1, arg2, ... follow
@@ -1242,7 +1264,11 @@ func (u *Unit) checkCallAsserts(st *State, pk, key string, k int, pos token.Pos)
 				aenv.names[fmt.Sprintf("arg%d", i)] = a
 			}
 			for _, cl := range ca.Clauses {
-				u.checkClause(aenv, cl, "assert", fmt.Sprintf("%s@call %s#%d", labelOr(cl.Label, "a"), shortKey(key), k), pos, st, true)
+				nm := fmt.Sprintf("%s@call %s#%d", labelOr(cl.Label, "a"), shortKey(key), k)
+				if ca.On != "" {
+					nm = fmt.Sprintf("%s@call %s", labelOr(cl.Label, "a"), shortKey(key))
+				}
+				u.checkClause(aenv, cl, "assert", nm, pos, st, true)
 			}
 		}
 	}
